@@ -37,18 +37,20 @@ APIS = ["calc", "range", "list", "array", "list_idx", "array_idx", "array2d", "a
 
 def strategy(tier):
     big = 4096
-    rng = st.builds(lambda api, size, start, length: {"kind": "range", "api": api, "size": size,
-                                                     "start": start, "length": length},
+    rng = st.builds(lambda api, size, start, length, pre: {"kind": "range", "api": api, "size": size,
+                                                          "start": start, "length": length, "precall": pre},
                     st.sampled_from(APIS), st.integers(1, big) | st.integers(1, 9),
                     st.integers(-1000, 100000) | st.integers(-3, 12),
-                    st.integers(0, 10 ** 7) | st.integers(0, 40) | st.integers(-30, 3))
+                    st.integers(0, 10 ** 7) | st.integers(0, 40) | st.integers(-30, 3), st.booleans())
     # nested: the library routine (which opens its own parallel region) is called from inside a parallel region of the
     # caller - the work is then shared at the caller's level only and every process computes the whole inner result
+    ops = st.builds(lambda size, nk, s: {"kind": "reduce_ops", "size": size, "Nk": nk, "salt": s},
+                    st.integers(1, 5), st.integers(2, 4), st.integers(0, 99))
     red = st.builds(lambda size, na, nk, s, which, nested: {"kind": "reduce", "size": size, "Na": na, "Nk": nk,
                                                             "salt": s, "which": which, "nested": nested},
                     st.integers(1, 9), st.integers(2, 5), st.integers(1, 8), st.integers(0, 999),
                     st.sampled_from(["rates", "tensor"]), st.booleans())
-    return st.one_of(rng, rng, rng, red)
+    return st.one_of(rng, rng, rng, red, ops)
 
 
 def grid(tier):
@@ -115,6 +117,8 @@ def check_case(case, ctx):
         return _grid(case, ctx)
     if kind == "range":
         return _range(case, ctx)
+    if kind == "reduce_ops":
+        return _reduce_ops(case, ctx)
     return _reduce(case, ctx)
 
 
@@ -182,6 +186,9 @@ def _range(case, ctx):
     for r in range(size):
         with simulated(size, r):
             if api == "range":
+                if case.get("precall"):
+                    # an earlier loop of the same length over another index window on the same configuration
+                    list(parallel.block_distributed_range(stop, stop + (stop - start)))
                 got.append(list(parallel.block_distributed_range(start, stop)))
             elif api == "list":
                 got.append(list(parallel.block_distributed_list(data)))
@@ -255,6 +262,67 @@ def simulated_mpi(size, rank):
             del sys.modules["mpi4py"]
         else:
             sys.modules["mpi4py"] = had
+
+
+class _TwoPassComm(object):
+    """All-reduce over simulated ranks: in the first pass every rank's contribution is recorded (and handed back
+    unreduced), in the second pass every rank receives the sum of the recorded contributions."""
+
+    def __init__(self, store, rank, second):
+        self.store, self.rank, self.second, self.k = store, rank, second, 0
+
+    def Barrier(self):
+        pass
+
+    def Allreduce(self, A, B, op=None):
+        if not self.second:
+            self.store.setdefault(self.k, {})[self.rank] = numpy.array(A, copy=True)
+            B[...] = A
+        else:
+            B[...] = sum(self.store[self.k].values())
+        self.k += 1
+
+    Reduce = Allreduce
+
+
+def _reduce_ops(case, ctx):
+    """Redfield tensor kept as operators (as_operators=True): every rank must end up with the serial Km, Lm and Ld"""
+    import quantarhei as qr
+    from quantarhei.qm import RedfieldRelaxationTensor
+    from .. import gens
+    size, nk, salt = case["size"], case["Nk"], case["salt"]
+    ctx.label("reduce/operator-form")
+    ctx.mark_nontrivial(size >= 2)
+    spec = {"E": [12000 + 37 * ((salt + 3 * i) % 11) for i in range(nk)],
+            "J": [[0 if i == j else 20 + 7 * ((i + j + salt) % 5) for j in range(nk)] for i in range(nk)], "T": 300,
+            "bath": [{"ftype": "OverdampedBrownian", "reorg": 20 + 5 * i, "cortime": 40 + 10 * i, "matsubara": 5}
+                     for i in range(nk)], "time": [0.0, 40, 2.0]}
+
+    def build():
+        agg = gens.make_aggregate(qr, spec)
+        ham, sbi = agg.get_Hamiltonian(), agg.get_SystemBathInteraction()
+        ham.protect_basis()
+        try:
+            with qr.eigenbasis_of(ham):
+                RT = RedfieldRelaxationTensor(ham, sbi, as_operators=True)
+        finally:
+            ham.unprotect_basis()
+        return [numpy.array(RT.Km), numpy.array(RT.Lm), numpy.array(RT.Ld)]
+    ok, serial = guarded(ctx, "reduction", build, "operator-form/serial")
+    if not ok:
+        return
+    store = {}
+    for second in (False, True):
+        for r in range(size):
+            with simulated_mpi(size, r) as dc:
+                dc.comm = _TwoPassComm(store, r, second)
+                ok, got = guarded(ctx, "reduction", build, "operator-form/rank")
+            if not ok:
+                return
+            if second:
+                for name, a, b in zip(("Km", "Lm", "Ld"), got, serial):
+                    ctx.close("reduction", a, b, rtol=1e-10, scale=max(1e-300, float(numpy.max(numpy.abs(b)))),
+                              where="operator-form/" + name, size=size, rank=r, Nk=nk)
 
 
 def _ints(n, salt, mod=7):
